@@ -433,6 +433,37 @@ func c15PatternLiteral(c *Check, a *Anchors) {
 	c.Fn(fb)
 	info := fb.Info()
 	name := fnDisplay(fb)
+	// WildcardMatch may hand its work, with the task's name, to a function of the package (`return wildcardMatch(t.Task, name)`):
+	// the rule is then decided on that function, whose parameter stands for the name
+	var nameParam *types.Var
+	if len(fb.Body.List) == 1 {
+		if ret, ok := fb.Body.List[0].(*ast.ReturnStmt); ok && len(ret.Results) == 1 {
+			if call, ok := ast.Unparen(ret.Results[0]).(*ast.CallExpr); ok {
+				if fn, ok := callee(info, call).(*types.Func); ok {
+					if h := c.P.DeclOf(fn); h != nil && h.Decl != nil && h.Pkg == fb.Pkg {
+						for i, arg := range call.Args {
+							if fieldSel(info, arg, PkgAst, "Task", "Task") {
+								if pv := paramAt(info, h, i); pv != nil {
+									nameParam = pv
+								}
+							}
+						}
+						if nameParam != nil {
+							fb = h
+							c.Fn(fb)
+						}
+					}
+				}
+			}
+		}
+	}
+	isName := func(e ast.Expr) bool {
+		if fieldSel(info, e, PkgAst, "Task", "Task") {
+			return true
+		}
+		v := varOf(info, e)
+		return v != nil && v == nameParam
+	}
 	// provenance of the string handed to the regexp compiler: constants, QuoteMeta'd values, or raw pieces of the name
 	nCompile := 0
 	var pieces []rxPiece
@@ -473,14 +504,14 @@ func c15PatternLiteral(c *Check, a *Anchors) {
 	cinfo := compileFb.Info()
 	inspectBody(compileFb.Body, func(nd ast.Node) bool {
 		if call, ok := nd.(*ast.CallExpr); ok && isFunc(callee(cinfo, call), "strings", "", "Split") && len(call.Args) == 2 && constIs(cinfo, call.Args[1], `"*"`) {
-			if fieldSel(cinfo, call.Args[0], PkgAst, "Task", "Task") {
+			if isName(call.Args[0]) {
 				splitOnStar = true
 			} else if pv := varOf(cinfo, call.Args[0]); pv != nil && compileFb != fb && isParamOf(cinfo, compileFb, pv) {
 				// the helper's parameter: bound to the task's name at the call in WildcardMatch
 				for _, hc := range callsIn(fb, false) {
 					if a.is(callee(info, hc), compileFb) {
 						for _, arg := range hc.Args {
-							if fieldSel(info, arg, PkgAst, "Task", "Task") {
+							if isName(arg) {
 								splitOnStar = true
 							}
 						}
@@ -927,4 +958,22 @@ func rxSliceProvenance(info *types.Info, fb *FuncBody, e ast.Expr, depth int) []
 		return []rxPiece{{"raw", exprStr(e)}}
 	}
 	return out
+}
+
+// paramAt: the i-th parameter variable of a declared function.
+func paramAt(info *types.Info, fb *FuncBody, i int) *types.Var {
+	k := 0
+	for _, fld := range fb.Type.Params.List {
+		for _, id := range fld.Names {
+			if k == i {
+				v, _ := info.Defs[id].(*types.Var)
+				return v
+			}
+			k++
+		}
+		if len(fld.Names) == 0 {
+			k++
+		}
+	}
+	return nil
 }
